@@ -701,6 +701,57 @@ func corrProbe(r *Rng, which string) (line, got string) {
 			}
 		}
 		return sb.String(), got
+	case "minima":
+		// the bookkeeping of local minima across executions on one engine: a history of 1-7 AddPaths calls
+		// (1-3 triangles each, bottoms on 4 levels so that equal y is frequent) and executions in any order;
+		// compared for every execution: the order of the minima list after reset, the scanline list, and the
+		// order in which the sweep's outer loop pops the local minima
+		var adds []clip.Paths64
+		var sb strings.Builder
+		sb.WriteString("model minima")
+		id := 0
+		for k, m := 0, r.Range(1, 7); k < m; k++ {
+			if r.Chance(0.35) {
+				adds = append(adds, nil)
+				sb.WriteString(" 0")
+				continue
+			}
+			n := r.Range(1, 3)
+			var ps clip.Paths64
+			fmt.Fprintf(&sb, " 1 %d", n)
+			for j := 0; j < n; j++ {
+				y := int64(r.Range(0, 3)) * 7
+				x := int64(id) * 10
+				ps = append(ps, clip.Path64{{X: x, Y: y}, {X: x + 3, Y: y - 5}, {X: x - 3, Y: y - 5}})
+				fmt.Fprintf(&sb, " %d %d", y, id)
+				id++
+			}
+			adds = append(adds, ps)
+		}
+		if r.Chance(0.8) {
+			adds = append(adds, nil)
+			sb.WriteString(" 0")
+		}
+		var execs []clip.VMinimaExec
+		if f := safeCall(func() { execs = clip.VMinimaOps(adds) }); f != "" {
+			return sb.String(), "fault"
+		}
+		ids := func(p clip.Path64) string {
+			ss := make([]string, len(p))
+			for i, q := range p {
+				ss[i] = fmt.Sprint(q.X / 10)
+			}
+			return strings.Join(ss, " ")
+		}
+		parts := make([]string, len(execs))
+		for i, e := range execs {
+			sc := make([]string, len(e.Scan))
+			for j, y := range e.Scan {
+				sc[j] = fmt.Sprint(y)
+			}
+			parts[i] = fmt.Sprintf("m %s ; s %s ; v %s", ids(e.Minima), strings.Join(sc, " "), ids(e.Visited))
+		}
+		return sb.String(), strings.Join(parts, " | ")
 	case "offraw":
 		// the raw ring that doGroupOffset appends for one closed path (before the union): Miter / Square /
 		// Bevel joins, deltas of both signs from tiny to large, miter limits, paths with duplicates,
@@ -1117,7 +1168,7 @@ func corrProbe(r *Rng, which string) (line, got string) {
 }
 
 var genProbes = []string{"triSign", "multiplyUInt64", "productsAreEqual", "isCollinear", "CrossProduct", "dotProduct64", "segsIntersect", "checkPrecision", "IsOdd", "ptsReallyClose", "isContributingClosed", "isContributingOpen", "getLocation", "getEdgesForPt", "isHeadingClockwise", "headingClockwise", "getAdjacentLocation", "areOpposites", "hasHorzOverlap", "hasVertOverlap", "isClockwise", "getSegmentIntersection", "getSegmentIntersectPt", "rectMethods", "getBounds", "GetBounds64", "Area64", "PerpendicDistFromLineSqr64", "PerpendicDistFromLineSqrD", "areaTriangle"}
-var modelProbes = []string{"offplan", "rectpoly", "rectline", "pipop", "scan", "lowest", "trim", "simp64", "pip", "strip", "mink", "vertex", "clean", "build", "tree", "tree", "areaop", "contain", "aelins", "ixlist", "ring", "aelptr", "offraw", "offopen", "split", "buildpaths", "split", "buildpaths"}
+var modelProbes = []string{"offplan", "rectpoly", "rectline", "pipop", "scan", "lowest", "trim", "simp64", "pip", "strip", "mink", "vertex", "clean", "build", "tree", "tree", "areaop", "contain", "aelins", "ixlist", "ring", "aelptr", "minima", "offraw", "offopen", "split", "buildpaths", "split", "buildpaths"}
 
 func corrStage(name string, probes []string, quick, thorough int, rule string) {
 	stages[name] = func(ctx *Ctx, cnt func(q, t int) int, replay string) Result {
